@@ -161,25 +161,9 @@ Proof.
   destruct k; try congruence; destruct ign; cbn [m_step]; unfold mark_unavail; try rewrite Hs'; cbn; repeat split.
 Qed.
 
-(* ---------- the connectivity slot and the reload floor: full statements and their refutations ---------- *)
-Definition C16_connectivity_bit_full_def : Prop :=
-  forall cfg h gi g d, nth_error (c_groups cfg) (N.to_nat gi) = Some g -> g_policy g = PMin ->
-    m_bits (m_run cfg h) gi d = spec_bit cfg h g d.
-
+(* ---------- the reload floor: full statement and its refutation ---------- *)
 Definition wit_cfg1 : config :=
   {| c_addr := fun _ => 1; c_groups := [ {| g_policy := PMin; g_members := [(0, 0%Z)] |} ]; c_tol := 0%Z |}.
-Definition wit_h_traffic : list ev := [EFail 0 DataUdp4 KForced false []; ETrafficOk 0 DataUdp4 []].
-Definition wit_h_reload : list ev := [EFail 0 Tcp4 KCheck false []; EReload []].
-
-Lemma C16_connectivity_bit_refuted_proof :
-  (model_alive wit_cfg1 wit_h_traffic 0 DataUdp4 = true /\ m_bits (m_run wit_cfg1 wit_h_traffic) 0 DataUdp4 = false)
-  /\ (model_alive wit_cfg1 wit_h_reload 0 Tcp4 = true /\ m_bits (m_run wit_cfg1 wit_h_reload) 0 Tcp4 = false)
-  /\ ~ C16_connectivity_bit_full_def.
-Proof.
-  split; [vm_compute; auto|]. split; [vm_compute; auto|].
-  intro H. specialize (H wit_cfg1 wit_h_traffic 0 {| g_policy := PMin; g_members := [(0, 0%Z)] |} DataUdp4 eq_refl eq_refl).
-  vm_compute in H. discriminate.
-Qed.
 
 Fixpoint groups_from (i : N) (gs : list group) : list (N * group) :=
   match gs with [] => [] | g :: r => (i, g) :: groups_from (i + 1) r end.
